@@ -328,6 +328,21 @@ func compare(c *runner.Ctx, src interface{}, desc string, nt *bool, outer ...map
 			}
 		}
 	}
+	// one call site: the field clauses are all there, only group clauses differ, and the graph holds a map whose keys
+	// print the same (two objects named alike: their groups are judged as one)
+	if strings.Contains(desc, "map[interface {}]") || strings.Contains(desc, "KeyS2") {
+		var gotF, gotG []string
+		for _, s := range got {
+			if errparse.ParseClause(s).Group {
+				gotG = append(gotG, s)
+			} else {
+				gotF = append(gotF, s)
+			}
+		}
+		if sameSet(gotF, fieldsW) && !sameSet(gotG, groupsW) {
+			kind = "keys-that-print-the-same/groups-merged"
+		}
+	}
 	c.Outcome("mismatch:" + kind)
 	c.Violation(kind, det())
 }
